@@ -323,10 +323,11 @@ def _ev(node, keys, mode, disp, check, peak, memo):
 
 def struct_real(o, args, p):
     x = args[0]
-    if o == 'sum':
-        return x.sum(axis=p['axis'])
-    if o == 'mean':
-        return x.mean(axis=p['axis'])
+    if o in ('sum', 'mean'):
+        ax = p['axis']
+        if isinstance(ax, list):
+            ax = tuple(ax) if p.get('axform') != 'list' else list(ax)
+        return x.sum(axis=ax) if o == 'sum' else x.mean(axis=ax)
     if o == 'getitem':
         return x[index_of(p['index'])]
     if o == 'reshape':
